@@ -139,7 +139,9 @@ class Module:
         self.relpath = relpath
         self.source = source
         self.tree = ast.fix_missing_locations(Canon().visit(ast.parse(source, filename=str(path))))
-        from .inline import inline_new_helpers
+        from .inline import inline_new_helpers, normalise_idioms
+
+        self.idioms = normalise_idioms(self.tree)
 
         try:
             self.inlined = inline_new_helpers(self.tree, name)
